@@ -112,6 +112,11 @@ var errVfReader = errors.New("injected reader failure")
 // exist only in the backend, e.g. uploaded through another cache instance).
 var vfPreloadBackend []*vfCOp
 
+// vfMaxProxy: when > 0 (PROXY=3) the cache is configured with this
+// max_proxy_blob_size: backend objects larger than it are neither asked for,
+// nor served, nor cached, and a lookup of a larger known size reserves nothing.
+var vfMaxProxy int64
+
 func vfNewCSys(dir, mode string, max int64, withProxy bool) *vfCSys {
 	vfCleanHot(dir)
 	s := &vfCSys{dir: dir, mode: mode, max: max, m: &vfCModel{content: map[string][]byte{}, backend: map[string][]byte{}}}
@@ -119,6 +124,9 @@ func vfNewCSys(dir, mode string, max int64, withProxy bool) *vfCSys {
 	if withProxy {
 		s.proxy = vlib.NewFakeProxy()
 		opts = append(opts, WithProxyBackend(s.proxy))
+		if vfMaxProxy > 0 {
+			opts = append(opts, WithProxyMaxBlobSize(vfMaxProxy))
+		}
 	}
 	cc, err := New(dir, max, opts...)
 	if err != nil {
@@ -273,6 +281,9 @@ func (s *vfCSys) step(o *vfCOp, check bool) []string {
 			return nil, false
 		}
 		v, ok := m.backend[k]
+		if ok && vfMaxProxy > 0 && int64(len(v)) > vfMaxProxy {
+			return nil, false // larger than max_proxy_blob_size: as good as absent
+		}
 		return v, ok
 	}
 	switch o.what {
@@ -340,7 +351,7 @@ func (s *vfCSys) step(o *vfCOp, check bool) []string {
 		}
 		// locally absent
 		bv, inBackend := fetchFrom()
-		if s.proxy != nil && o.size > 0 {
+		if s.proxy != nil && o.size > 0 && (vfMaxProxy == 0 || o.size <= vfMaxProxy) {
 			// a fetch of known size reserves its space (and may evict
 			// for it) before the backend is asked.
 			victimsAllowed = true
@@ -397,7 +408,10 @@ func (s *vfCSys) step(o *vfCOp, check bool) []string {
 		var want []string
 		for i, kk := range o.keys {
 			v, present := m.content[kk.String()]
-			_, inBackend := m.backend[kk.String()]
+			bv, inBackend := m.backend[kk.String()]
+			if inBackend && vfMaxProxy > 0 && int64(len(bv)) > vfMaxProxy {
+				inBackend = false
+			}
 			if present && int64(len(v)) == o.sizes[i] {
 				m.touch(kk.String())
 				continue
@@ -636,11 +650,15 @@ func TestVfE2Cache(t *testing.T) {
 	prop := vlib.Param("PROPERTY", "C03")
 	mode := vlib.Param("MODE", "zstd")
 	withProxy := vlib.Param("PROXY", "0") != "0"
-	preload := vlib.Param("PROXY", "0") == "2"
+	preload := vlib.Param("PROXY", "0") == "2" || vlib.Param("PROXY", "0") == "3"
+	vfMaxProxy = 0
+	if vlib.Param("PROXY", "0") == "3" {
+		vfMaxProxy = 4000 // between blob a (3000) and blob b (6000), z (8192), action result v2 (5000)
+	}
 	depth, _ := strconv.Atoi(vlib.Param("DEPTH", "3"))
 	maxBlocks, _ := strconv.Atoi(vlib.Param("MAXBLOCKS", "4"))
 	max := int64(maxBlocks) * BlockSize
-	rep := vlib.NewReport(prop, fmt.Sprintf("E2-cache:%s/max%d/proxy%v%s", mode, maxBlocks, withProxy, map[bool]string{true: "+preloaded", false: ""}[preload]))
+	rep := vlib.NewReport(prop, fmt.Sprintf("E2-cache:%s/max%d/proxy%v%s", mode, maxBlocks, withProxy, map[bool]string{true: "+preloaded", false: ""}[preload]+map[bool]string{true: "+max_proxy_blob_size=4000", false: ""}[vfMaxProxy > 0]))
 	defer rep.Write()
 	dir := filepath.Join(os.Getenv("VERIF_SCRATCH"), "cache")
 	alphabet := vfCAlphabet(mode, max, withProxy)
